@@ -523,35 +523,47 @@ def check_C02(tier):
         if not r.ok: chk.undecided.append("Flow.tla with pre-existing %s violates %s" % (pre, r.violated or "deadlock"))
     # real: subsets of tasks with pre-existing (user) outputs
     cases = []
-    for base in ([zoo.Z1(n=3, mx=2), zoo.Z3(n=2, mx=2), zoo.Z7(n=2, mx=2)] + ([zoo.Z2(n=3), zoo.Z6(n=3), zoo.Z4(n=2)] if thorough else [])):
+    # multi-core processes: a skipped task must leave the slot accounting alone (many skipped tasks in a row, few slots)
+    mc1 = zoo.Z1(n=3, mx=3); mc1["name"] = "Z1MC"
+    for p in mc1["procs"]:
+        if p["kind"] == "cmd": p["cores"] = 2
+    mc2 = zoo.Z13(n=4, mx=3); mc2["name"] = "Z13MC"
+    for base in ([zoo.Z1(n=3, mx=2), zoo.Z3(n=2, mx=2), zoo.Z7(n=2, mx=2), mc1, mc2] + ([zoo.Z2(n=3), zoo.Z6(n=3), zoo.Z4(n=2)] if thorough else [])):
         exp = fc.expected(base)
         tasks = sorted(exp["tasks"], key=lambda t: t["key"])
-        subsets = []
+        subsets = [list(tasks), tasks[:-1]] if base["name"].endswith("MC") else []
         if len(tasks) <= 6 and thorough:
             for m in range(1, 2 ** len(tasks)):
                 subsets.append([t for i, t in enumerate(tasks) if m >> i & 1])
         else:
             for _ in range(14 if thorough else 6):
                 subsets.append([t for t in tasks if rng.random() < 0.4] or [rng.choice(tasks)])
-        for sub in subsets:
+        for k, sub in enumerate(subsets):
             inst = dict(base); inst["pre"] = sorted(o for t in sub for o in t["outs"])
-            cases.append((inst, sub))
+            # "arbitrary content": some of the user's files are empty (all of them in every third case)
+            pc = {f: "" for f in inst["pre"] if k % 3 == 0 or rng.random() < 0.3}
+            cases.append((inst, sub, pc))
     def one(c):
-        inst, sub = c
+        inst, sub, pc = c
         exp = fc.expected(inst)
         vs = fc.jitter_variants(random.Random(rng.random()), 2, bufs=(1, 128))
-        rrs = fc.real_runs(inst, vs)
+        rrs = fc.real_runs(inst, vs, pre_content=pc)
         det, mon, rows = fc.validate_traces(inst, exp, [r for r in rrs if not r.timeout])
-        return inst, sub, exp, rrs, det, mon
-    for inst, sub, exp, rrs, det, mon in pmap(one, cases, workers=8):
+        return inst, sub, pc, exp, rrs, det, mon
+    for inst, sub, pc, exp, rrs, det, mon in pmap(one, cases, workers=8):
         chk.evaluations += len(rrs)
         for r in (det, mon):
             if r is not None and not r.error: chk.add_tlc(r)
         if det is not None and det.ok: chk.traces += len(rrs)
-        fc.judge_instance(chk, inst, exp, rrs, det, mon, {"C02"}, label="pre-existing %s" % inst["pre"])
+        fc.judge_instance(chk, inst, exp, rrs, det, mon, {"C02"}, pre_content=pc, label="pre-existing %s" % inst["pre"])
         keys = {t["key"] for t in sub}
         for rr in rrs:
             ran = set(exec_counts(rr.cmdlog))
+            if rr.timeout or rr.deadlock:
+                chk.violation("with the outputs of %s on disk before the run the workflow stopped making progress (%s): downstream processes did not receive the "
+                              "existing files and proceed; executed %s of %s (instance %s)" % (sorted(keys), "Go runtime deadlock report" if rr.deadlock else "timeout",
+                              sorted(ran), sorted(set(exp["execkeys"])), inst["name"]), dict(instance=norm_inst(inst), cmdlog=rr.cmdlog[:40], trace_tail=rr.events[-30:]))
+                continue
             if keys & ran:
                 chk.violation("tasks %s were executed although their outputs existed before the run (instance %s)" % (sorted(keys & ran), inst["name"]),
                               dict(instance=norm_inst(inst), cmdlog=rr.cmdlog[:40]))
@@ -562,6 +574,9 @@ def check_C02(tier):
     # histories: complete run then run again; partial presence; kill in the publication window then re-run without cleanup
     def rerun_judge(h, exp):
         first, second = h.runs[0], h.runs[-1]
+        if second.timeout or second.deadlock:
+            R.report("C02", "the re-run did not return (%s) (history %s)" % ("Go runtime deadlock report" if second.deadlock else "timeout", h.label), h)
+            return
         ran = exec_counts(second.cmdlog)
         present = set(h.snaps[-2]["final"])
         bad = [t["key"] for t in exp["tasks"] if set(t["outs"]) & present and t["key"] in ran]
@@ -582,6 +597,11 @@ def check_C02(tier):
         if inst["name"] == "FB":
             for h in hs: h.accept = len(h.steps) == 2 and h.steps[1][0] == "run" and h.steps[0][1] is None
         R.histories(inst, hs, judge=rerun_judge)
+    # in-place re-run of a completed workflow of multi-core tasks (monitors only: max > 1)
+    mcb = dict(name="FBMC", max=3, bufsize=2, procs=[zoo.src("s", zoo.items(5)), zoo.cmd("a", ["in"], ["out"], cores=2), zoo.cmd("b", ["x"], ["out"], cores=3)],
+               edges=[zoo.E("s.out", "a.in"), zoo.E("a.out", "b.x")])
+    hmc = fs.History(mcb, [("run", None), ("run", None)], label="complete run of 2- and 3-core tasks, run again"); hmc.accept = False
+    R.histories(mcb, [hmc], judge=rerun_judge)
     # partial presence inside a multi-output task (user deleted / placed one of two outputs)
     for pre in (["a.o2_1"], ["a.o1_1"]):
         inst = FA(extra=False); inst["pre"] = pre
